@@ -143,6 +143,16 @@ def distribute_ifs(v):
             i = ifs[0]
             _, c, a, b = flat[i][1]
             return mk_if(c, mk_s(flat[:i] + [("h", a)] + flat[i + 1 :]), mk_s(flat[:i] + [("h", b)] + flat[i + 1 :]))
+    # a conditional raise anywhere in a strictly evaluated term is a conditional raise of the whole term
+    if v[0] != "if" and has(v, "raise"):
+        r_ = _extract_raise(v)
+        if r_ is not None:
+            return distribute_ifs(mk_if(r_[0], r_[1], r_[2]))
+    if v[0] == "if" and v[2][0] == "if" and v[3][0] == "if" and v[2][1] == v[3][1] and v[2][2][0] == "raise" and v[2][2] == v[3][2]:
+        # both branches start with the same check: (raise if p else A) if c else (raise if p else B)
+        return distribute_ifs(mk_if(v[2][1], v[2][2], mk_if(v[1], v[2][3], v[3][3])))
+    if v[0] == "if" and v[3][0] == "if" and v[2] == v[3][2]:
+        return mk_if(mk_or(v[1], v[3][1]), v[2], v[3][3])  # the same outcome under either condition
     # f(a if c else b) -> f(a) if c else f(b)   (one conditional positional argument)
     if v[0] in ("call", "mcall"):
         ai = 2 if v[0] == "call" else 3
@@ -321,8 +331,36 @@ def _position_tables(v, d, it):
     return renorm_deep(new) if new != v else v
 
 
+def _extract_raise(v):
+    """(cond, raise term, v without it) for the first sub-term `raise X if cond else w` (or mirrored) of v, else None"""
+    if not isinstance(v, tuple) or not v:
+        return None
+    if v[0] == "if" and len(v) == 4:
+        if v[2][0] == "raise" and v[3][0] != "raise":
+            return v[1], v[2], v[3]
+        if v[3][0] == "raise" and v[2][0] != "raise":
+            return mk_not(v[1]), v[3], v[2]
+    if v[0] == "comp" and len(v) >= 5:
+        r = _extract_raise(v[2])  # the source is evaluated outside the binder
+        return None if r is None else (r[0], r[1], v[:2] + (r[2],) + v[3:])
+    if v[0] in ("fold", "fn"):
+        return None  # a raise under an inner binder is the inner comprehension's business
+    for i, x in enumerate(v):
+        if isinstance(x, tuple) and x and i > 0 or (isinstance(x, tuple) and i == 0 and not isinstance(v[0], str)):
+            r = _extract_raise(x)
+            if r is not None:
+                return r[0], r[1], v[:i] + (r[2],) + v[i + 1 :]
+    return None
+
+
 def mk_comp(d, it, items, conds=()):
     it = _unwrap_seq(it)
+    # an element for which building the item raises makes the whole comprehension raise: the check moves in front
+    for k_, item in enumerate(items):
+        r_ = _extract_raise(item) if isinstance(item, tuple) and has(item, "raise") else None
+        if r_ is not None and not has(r_[0], "acc") and not has(r_[0], "idx") and not has(r_[0], "cidx") and not has(r_[0], "first"):
+            rest = mk_comp(d, it, tuple(items[:k_]) + (r_[2],) + tuple(items[k_ + 1 :]), conds)
+            return mk_if(mk_anyall("any", mk_comp(d, it, (r_[0],), conds)), r_[1], rest)
     if has(items, "kv") or has(conds, "kv"):
         items = tuple(_position_tables(i, d, it) for i in items)
         conds = tuple(_position_tables(c, d, it) for c in conds)
